@@ -3,7 +3,7 @@
    Proofs/Dgram_lemmas.v, followed by Print Assumptions.  Model: Model/Dgram.v (the code after
    the repairs F3, F4, F10, F16; `as_found` = the code before them).                          *)
 From Coq Require Import List NArith Ascii Bool.
-From SV Require Import Lib.Bytes Lib.DgramLib Model.Chan Model.Dgram Proofs.Dgram_lemmas Model.DgramSys Proofs.DgramServer_lemmas Proofs.DgramSystem_lemmas Proofs.DgramMixed_lemmas Gen.Consts.
+From SV Require Import Lib.Bytes Lib.DgramLib Model.Chan Model.Dgram Proofs.Dgram_lemmas Model.DgramSys Proofs.DgramServer_lemmas Proofs.DgramSystem_lemmas Proofs.DgramMixed_lemmas Model.DgramNs Proofs.DgramNs_lemmas Gen.Consts.
 Import ListNotations.
 Local Open Scope N_scope.
 
@@ -472,6 +472,32 @@ Example c10_finished_tcp_identifier_reused :
    [OFrame 1 CMD_TCP_STOP_SENDING []; OFrame 1 CMD_TCP_EOF []]; [];
    [OFrame 1 CMD_DNS_REQ ["q"%char]]; []].
 Proof. vm_compute. reflexivity. Qed.
+
+(* SERVER, "otherwise a system name server of the remote host" while that host's /etc/resolv.conf is REWRITTEN during the
+   life of the server process.  Model/DgramNs.v try_send_ns = DnsProxy.try_send with the environment answering every
+   attempt with the list the file holds at that moment (nss: one list per attempt; get_random_nameserver reads the file
+   for every attempt).  conn_current cfg nss outs: the k-th connect of outs goes to the configured resolver if one is
+   configured, otherwise to port 53 of a MEMBER OF THE k-th LIST (127.0.0.1 when that list is empty) - never to a member
+   of an earlier list.  The real code is held to this statement by the resolv.conf histories of harness/props/dgram_common.py
+   (run_c10_resolv: implementation-side oracle on the real helpers.get_random_nameserver / resolvconf_nameservers). *)
+Theorem c10_attempt_target_current :
+  forall fx cfg left nss d nsock io d' nsock' io' outs,
+    try_send_ns fx cfg nss left d nsock io = Ok (d', nsock', io', outs) -> conn_current cfg nss outs.
+Proof. exact try_send_ns_current. Qed.
+Print Assumptions c10_attempt_target_current.
+
+(* with no rewrite scripted, try_send_ns is the try_send of Model/Dgram.v that the correspondence runs against the real loop *)
+Theorem c10_try_send_ns_conservative :
+  forall fx cfg left d nsock io, try_send_ns fx cfg [] left d nsock io = try_send fx cfg left d nsock io.
+Proof. exact try_send_ns_nil. Qed.
+Print Assumptions c10_try_send_ns_conservative.
+
+(* non-vacuity: list [A], then empty, then [B]; the first two connects are refused: A, 127.0.0.1, B *)
+Example c10_attempt_target_current_example :
+  try_send_ns all_fixed {| sc_to_ns := None; sc_sysns := [] |} [[w_nsA]; []; [w_nsB]] 3 w_d0 0 [IoOk; IoErr 111; IoOk; IoErr 111] =
+  Ok (set_socks (set_tries w_d0 3) [2], 3, [],
+      [SConnect 0 (w_nsA, 53) false; SConnect 1 (localhost, 53) false; SConnect 2 (w_nsB, 53) true; SSend 2 ["q"%char] true]).
+Proof. exact try_send_ns_example. Qed.
 
 (* ---- non-vacuity ---- *)
 Example c10_init_reachable : cinv w_cfgN c_init.
